@@ -15,7 +15,7 @@ fn run_geo(c: &MultiCase) -> CaseResult {
     it.cut_to_height = true;
     it.model.fit = Some((it.rows, it.cols));
     let mut v = Verdict::default();
-    let (mut overflow, mut fits_again, mut wraps) = (false, false, false);
+    let (mut overflow, mut fits_again, mut wraps, mut wide_wraps) = (false, false, false, false);
     let mut was_over = false;
     for (i, op) in c.ops.iter().enumerate() {
         clock::advance(Duration::from_millis(c.step_ms.max(2) as u64));
@@ -43,11 +43,13 @@ fn run_geo(c: &MultiCase) -> CaseResult {
             }
             was_over = over;
             wraps |= full.iter().any(|l| console::measure_text_width(l) > it.cols);
+            wide_wraps |= full.iter().any(|l| console::measure_text_width(l) > it.cols && l.chars().count() <= it.cols);
         }
     }
     it.teardown()?;
     v.nontrivial = wraps && overflow;
     v.label_if(wraps, "line_wraps");
+    v.label_if(wide_wraps, "double_width_line_wraps_with_fewer_chars_than_columns");
     v.label_if(overflow, "frame_taller_than_terminal");
     v.label_if(fits_again, "fits_again_after_overflow");
     v.label_if(it.rows == 1 || it.cols == 1, "one_row_or_one_column");
@@ -63,11 +65,14 @@ fn geo_strategy(tier: Tier) -> BoxedStrategy<MultiCase> {
             let c = cols as usize;
             let s = || any::<u16>();
             // message lengths around multiples of the width: the line is "B<tag>:<pos> <msg>"
-            let msg = (0usize..4, -2i32..=2).prop_map(move |(k, d)| "w".repeat(((k * c) as i32 + d - 5).max(0) as usize));
+            let ascii = (0usize..4, -2i32..=2).prop_map(move |(k, d)| "w".repeat(((k * c) as i32 + d - 5).max(0) as usize));
+            // double-width glyphs: fewer characters than columns, yet the line wraps
+            let wide = (c / 4..c + 2).prop_map(|n| "\u{9032}".repeat(n));
+            let msg = prop_oneof![14 => ascii, 1 => wide];
             let msg2 = msg.clone();
             let spec = (proptest::option::weighted(0.8, 1u64..50), prop_oneof![3 => Just(2u8), 2 => Just(0u8), 1 => 1u8..5], msg.clone())
                 .prop_map(|(len, on_finish, msg)| BarSpec { two_lines: false, len, on_finish, msg });
-            let log = prop_oneof![3 => "[a-z]{1,4}", 1 => (0usize..3, -1i32..=1).prop_map(move |(k, d)| "l".repeat(((k * c) as i32 + d).max(0) as usize))];
+            let log = prop_oneof![3 => "[a-z]{1,4}", 1 => (0usize..3, -1i32..=1).prop_map(move |(k, d)| "l".repeat(((k * c) as i32 + d).max(0) as usize)), 1 => (c / 2 + 1..c + 2).prop_map(move |n| if c % 2 == 0 { "\u{6357}".repeat(n) } else { "l".repeat(n) })];
             let op = prop_oneof![
                 6 => spec.prop_map(MOp::Add),
                 2 => s().prop_map(MOp::Remove),
@@ -94,7 +99,7 @@ pub fn property() -> Property {
         assumptions: &[
             "single-line bars (which wrap over several rows); the statement does not say whether a multi-line bar may be cut between its lines",
             "top alignment; full-screen oracle: scroll-back + visible rows must be exactly printed lines ++ retained blocks ++ the leading bar lines whose rows fit the height, so a bar row that scrolled out or survived a redraw shows up as a mismatch",
-            "single-width characters only",
+            "double-width glyphs only where none meets the last cell of a row: where such a glyph goes is terminal-dependent, those cases are discarded and counted under the label discarded_wide_glyph_at_right_margin",
         ],
         parts: vec![Box::new(Gen::<MultiCase> {
             name: "overflow",
@@ -103,7 +108,7 @@ pub fn property() -> Property {
             cases: |t| t.pick(4_000, 800_000),
             run: run_geo,
             signature: crate::props::c02::signature,
-            essential: &["line_wraps", "frame_taller_than_terminal", "fits_again_after_overflow", "one_row_or_one_column", "log_lines"],
+            essential: &["line_wraps", "frame_taller_than_terminal", "fits_again_after_overflow", "one_row_or_one_column", "log_lines", "double_width_line_wraps_with_fewer_chars_than_columns"],
             workers: w,
             decode: Some(|u| decode_multi(u, 2)),
         })],
